@@ -74,7 +74,8 @@ def generate(ctx):
         yield {"part": "multicell", "trainer": MULTI[i % len(MULTI)], "dt": rng.choice([1.0, 0.5]), "B": rng.randint(1, 2), "T": rng.randint(6, 10),
                "hypers": [base, other], "topology": ["fan_in", "fan_out", "two_layers"][(i // len(MULTI)) % 3], "freeze_at": rng.choice([3, 5, 10 ** 9]),
                "reduction": "sum", "reward": rng.choice(["scalar+", "scalar-", "tensor"]),
-               "scale": rng.choice([1.0, 0.25, 2.0]), "p": rng.choice([0.4, 0.7]), "seed": rng.randrange(1 << 30)}
+               "scale": rng.choice([1.0, 0.25, 2.0]), "p": rng.choice([0.4, 0.7]), "seed": rng.randrange(1 << 30),
+               "partial_calls": rng.random() < 0.6}
 
 
 RED = {"sum": torch.sum, "mean": torch.mean, "amax": torch.amax}
@@ -248,14 +249,22 @@ def run_multicell(ctx, desc, prop="C08"):
             h.layers[0].eval()
             frozen = True
             ctx.count("multicell_frozen_layer_cases")
+        # three-factor trainers: a call may name the cells it applies to; the others get no update from that call
+        only = None
+        if name in tr.THREE_FACTOR and desc.get("partial_calls") and t % 3 == 1:
+            only = [["a"], ["b"], []][(t // 3 + desc["seed"]) % 3]
+            ctx.count("multicell_calls_limited_to_named_cells")
         try:
-            outs = h.step_apply(pres, posts, reward, desc["scale"])
+            outs = h.step_apply(pres, posts, reward, desc["scale"], cells=only)
         except Exception as e:  # noqa: BLE001
             ctx.violation(ctx.exc_signature(e, f"step.multicell.{name}"), f"{type(e).__name__}: {str(e)[:200]}", rdesc)
             return False
         ctx.case(f"{prop}/multicell-{topo}/{name}/differ:{differing}/{desc['reward'] if name in tr.THREE_FACTOR else '-'}/scale{desc['scale']}/B{B}")
         ctx.count("multicell_steps_checked")
         exp = [orc.step(pres[ci[i]], posts[ni[i]], delays[ci[i]], reward, desc["scale"]) for i, orc in enumerate(orcs)]
+        if only is not None:
+            zz = np.zeros_like(exp[0][0])
+            exp = [e if nm in only else (zz, zz) for e, nm in zip(exp, ("a", "b"))]
         if topo == "two_layers" and frozen:
             z = np.zeros_like(exp[0][0])
             per_conn = [((z, z), "frozen"), (exp[1], "second")]      # no update for the cell that is not training
